@@ -63,6 +63,15 @@ def _is_numeric(a):
     return isinstance(a, np.ndarray) and a.dtype != object
 
 
+def _prog_call(fn, *args, **kw):
+    """Run an operation of the evaluated program (a list / dict / str / set method, a builtin): a Python exception it
+    raises is the exception the program would raise."""
+    try:
+        return fn(*args, **kw)
+    except (ValueError, KeyError, IndexError, ZeroDivisionError, TypeError, AttributeError) as exc:
+        raise Raised(type(exc).__name__) from exc
+
+
 class _Expr(SymEval):
     def __init__(self, env, owner):
         super().__init__(env, None, {"np", "numpy"})
@@ -73,6 +82,8 @@ class _Expr(SymEval):
         if isinstance(n.value, ast.Name) and n.value.id in self.np_names:
             return super().e_Attribute(n)
         base = self.eval(n.value)
+        if base is None:
+            raise Raised("AttributeError")
         if isinstance(base, Rec):
             return self.owner.get(base, n.attr)
         if isinstance(base, np.ndarray) and n.attr in ("T", "shape", "size", "ndim"):
@@ -85,7 +96,7 @@ class _Expr(SymEval):
         a, b = self.eval(n.left), self.eval(n.right)
 
         def numeric(v):
-            return (isinstance(v, (int, float, np.integer, np.floating)) and not isinstance(v, bool)) or (isinstance(v, np.ndarray) and v.dtype != object)
+            return isinstance(v, (int, float, bool, np.integer, np.floating, np.bool_)) or (isinstance(v, np.ndarray) and v.dtype != object)
 
         if isinstance(a, str) and isinstance(b, str) and isinstance(n.op, ast.Add):
             return a + b
@@ -182,7 +193,12 @@ class _Expr(SymEval):
                         raise NotSymbolic("comparison of symbolic arrays")
                     r = (la == ra) if isinstance(op, ast.Eq) else (la != ra)
                 elif isinstance(left, Sym) or isinstance(right, Sym):
-                    raise NotSymbolic("comparison of symbols")
+                    # symbols denote generic values: two expressions are equal only if they are the same polynomial
+                    try:
+                        eq = Sym.const(left) == Sym.const(right)
+                    except NotSymbolic:
+                        eq = False
+                    r = eq if isinstance(op, ast.Eq) else (not eq)
                 else:
                     r = (left == right) if isinstance(op, ast.Eq) else (left != right)
             elif isinstance(op, (ast.Lt, ast.LtE, ast.Gt, ast.GtE)):
@@ -302,13 +318,15 @@ class _Expr(SymEval):
             if isinstance(base, Rec):
                 return self.owner.call_method(base, f.attr, [self.eval(a) for a in n.args], {k.arg: self.eval(k.value) for k in n.keywords})
             if isinstance(base, str) and f.attr in ("lower", "upper", "strip", "title", "capitalize", "startswith", "endswith", "replace", "split", "join", "rstrip", "lstrip"):
-                return getattr(base, f.attr)(*[self.eval(a) for a in n.args])
+                return _prog_call(getattr(base, f.attr), *[self.eval(a) for a in n.args])
+            if isinstance(base, (set, frozenset)) and f.attr in ("difference", "union", "intersection", "issubset", "issuperset", "symmetric_difference", "add", "copy", "isdisjoint"):
+                return _prog_call(getattr(base, f.attr), *[self.eval(a) for a in n.args])
             if isinstance(base, list) and f.attr in ("append", "extend", "index", "count", "copy", "insert", "pop"):
-                return getattr(base, f.attr)(*[self.eval(a) for a in n.args])
+                return _prog_call(getattr(base, f.attr), *[self.eval(a) for a in n.args])
             if isinstance(base, dict) and f.attr in ("update", "get", "items", "keys", "values", "setdefault", "pop", "copy"):
                 args = [self.eval(a) for a in n.args]
                 kw = {k.arg: self.eval(k.value) for k in n.keywords if k.arg is not None}
-                res = getattr(base, f.attr)(*args, **kw)
+                res = _prog_call(getattr(base, f.attr), *args, **kw)
                 return list(res) if f.attr in ("items", "keys", "values") else res
         if isinstance(f, ast.Name) and f.id not in self.env:
             r = self.owner.prog.lookup(None, getattr(self.owner, "module", None) or self.owner.cls.module, f.id)
@@ -325,11 +343,18 @@ class _Expr(SymEval):
                 if stub is not None:
                     return stub(args, kw)
                 return self.owner.run_free(g, args, kw)
+            if r is not None and r[0] == "external" and r[1] in ("warnings.warn",):
+                for a in n.args:
+                    self.eval(a)
+                self.owner.warnings = getattr(self.owner, "warnings", 0) + 1
+                return None
             if r is not None and r[0] == "class":
                 ci = r[1]
                 names = list(ci.fields)
                 args = [self.eval(a) for a in n.args]
                 kw = {k.arg: self.eval(k.value) for k in n.keywords}
+                if not names:
+                    return Rec(ci, args=tuple(args), **kw)  # exception / warning classes and other plain classes
                 if len(args) > len(names) or any(k not in names for k in kw):
                     raise Raised("TypeError")
                 vals = {nm: None for nm in names}
@@ -358,12 +383,14 @@ class _Expr(SymEval):
                     return list(reversed(rows(args[0])))
                 vals = [self._truth(x) for x in rows(args[0])]
                 return all(vals) if f.id == "all" else any(vals)
-            if f.id in ("round", "min", "max", "sum", "str", "sorted", "list", "tuple", "dict") and n.args and not n.keywords:
+            if f.id in ("round", "min", "max", "sum", "str", "sorted", "list", "tuple", "dict", "set", "frozenset") and n.args and not n.keywords:
                 args = [self.eval(a) for a in n.args]
                 if all(not isinstance(a, (Sym, Rec)) and not (isinstance(a, np.ndarray) and a.dtype == object) for a in args):
                     import builtins
 
-                    return getattr(builtins, f.id)(*args)
+                    return _prog_call(getattr(builtins, f.id), *args)
+            if f.id == "id" and len(n.args) == 1:
+                return id(self.eval(n.args[0]))
             if f.id == "bool" and len(n.args) == 1:
                 return self._truth(self.eval(n.args[0]))
             if f.id in ("int", "float") and n.args:
@@ -388,10 +415,17 @@ class _Expr(SymEval):
             if r is not None and r[0] == "global":
                 from .consteval import ConstEval, NotConstant
 
-                try:
-                    return ConstEval(self.owner.prog).global_value(r[1], r[2])
-                except NotConstant as exc:
-                    raise NotSymbolic(f"module constant {n.id}: {exc}") from exc
+                key = (r[1].name, r[2])
+                cache = self.owner.__dict__.setdefault("_globals", {})
+                if key not in cache:
+                    try:
+                        v = ConstEval(self.owner.prog).global_value(r[1], r[2])
+                    except NotConstant as exc:
+                        raise NotSymbolic(f"module constant {n.id}: {exc}") from exc
+                    # module-level containers are private to one evaluation (state of earlier calls is not modelled:
+                    # every evaluation sees the module as freshly imported; cross-call state is C16's business)
+                    cache[key] = copy.deepcopy(v) if isinstance(v, (dict, list, set)) else v
+                return cache[key]
         return super().e_Name(n)
 
 
